@@ -514,7 +514,7 @@ func findNonSpace(r []rune, i, end int) int {
 // findEnd finds end of the current symbol (position of next #, space, or line
 // end), returning end if not found.
 func findEnd(r []rune, i, end int) int {
-	for c := grab(r, i+1, end); i < end && c != '#' && !unicode.IsSpace(c) && !unicode.IsControl(c); i++ {
+	for c := grab(r, i, end); i < end && c != '#' && !unicode.IsSpace(c) && !unicode.IsControl(c); i++ {
 		c = grab(r, i+1, end)
 	}
 
